@@ -1051,8 +1051,8 @@ impl World for C19 {
             let uri = uri_of(name);
             if case["invalid_interval"].as_bool().unwrap_or(false) {
                 let broken = format!("{text}def broken(:\n    pass\n");
-                // valid -> invalid -> valid (edited) -> invalid -> the very first text again (undo)
-                for (t, label) in [(broken.clone(), "invalid"), (format!("{text}zz_added = 1\n"), "valid again"), (broken.clone(), "invalid"), (text.clone(), "undone")] {
+                // valid -> invalid -> the same valid text again (undo) -> invalid -> valid (edited) -> invalid -> undo
+                for (t, label) in [(broken.clone(), "invalid"), (text.clone(), "undone"), (broken.clone(), "invalid"), (format!("{text}zz_added = 1\n"), "valid again"), (broken.clone(), "invalid"), (format!("{text}zz_added = 1\n"), "undone")] {
                     let _ = cl.notify("textDocument/didChange", json!({"textDocument": {"uri": uri, "version": version}, "contentChanges": [{"text": t}]}));
                     version += 1;
                     let last = if parses(&t) { Some(t.clone()) } else { model.get(&uri).and_then(|m| m.1.clone()) };
